@@ -37,7 +37,7 @@ ASSUMPTIONS = [
   'module paths are taken from Module.path (naming is C02 territory); the check is that the key is the stated function of (seed, stream, path, count)',
   'distinctness is demanded modulo the derivation\'s own 32-bit hash truncation: positions whose model hashes coincide are counted in a probe and skipped',
 ]
-PROBES = ['nnx_runs', 'linen_runs', 'missing_stream_default', 'split_ctx_raises', 'restore_resumes', 'reseed', 'jit_draw', 'vmap_draw', 'clone_predicted_duplicate', 'linen_fallback_params', 'separator_on', 'separator_off', 'edit_invariance_checked', 'hash_collision_skipped', 'init_keys_checked']
+PROBES = ['nnx_runs', 'linen_runs', 'missing_stream_default', 'split_ctx_raises', 'restore_resumes', 'reseed', 'jit_draw', 'vmap_draw', 'clone_predicted_duplicate', 'linen_fallback_params', 'separator_on', 'separator_off', 'edit_invariance_checked', 'hash_collision_skipped', 'init_keys_checked', 'linen_jit_child']
 
 
 def setup_worker(w, tier):
@@ -96,10 +96,21 @@ def gen_linen(g):
   for s in ['dropout', 'noise']:
     if g.random() < 0.6:
       provided[s] = g.randrange(4)
+  jit_child = False
+  if g.random() < 0.3:
+    # one child is lifted with nn.jit (one lifted class for the whole run): keys inside cannot be recorded, so the
+    # values they produce are the proxy - the same program with the same seeds must give the same values every time
+    kids = [ins for ins in sp['body'] if ins['i'] == 'child']
+    if kids:
+      kid = g.choice(kids)
+      kid['lift'] = 'jit'
+      kid['times'] = 2
+      kid['mod'] = dict(style='compact', name=None, body=[dict(i='child', times=1, mod=dict(style='compact', name=None, body=[dict(i='rng', stream=g.choice(['dropout', 'noise'])), dict(i='param', name='w0', kind='bias')]))])
+      jit_child = True
   edits = []
   for _ in range(g.randrange(1, 4)):
     edits.append(dict(kind=g.choice(['add_named_sibling', 'add_var', 'add_sow', 'add_other_stream_draw', 'add_stream', 'remove_stream', 'append_sibling']), at=g.randrange(8), stream=g.choice(P.STREAMS)))
-  return dict(engine='linenworld', knobs=dict(kind='linen', separator=g.random() < 0.6, spec=sp, provided=provided, batch=g.choice([1, 2])), ops=edits)
+  return dict(engine='linenworld', knobs=dict(kind='linen', separator=g.random() < 0.6, spec=sp, provided=provided, batch=g.choice([1, 2]), jit_child=jit_child), ops=edits)
 
 
 SHRINK_LISTS = ['ops']
@@ -321,6 +332,15 @@ class NnxWorld:
 # Linen half: independent model of the derivation
 
 
+def _val(x):
+  if isinstance(x, dict) or hasattr(x, 'keys'):
+    return tuple((k, _val(x[k])) for k in sorted(x.keys()))
+  if isinstance(x, (list, tuple)):
+    return tuple(_val(v) for v in x)
+  a = np.asarray(x)
+  return (str(a.dtype), a.shape, a.tobytes())
+
+
 def model_key(seed_key, parts, separator):
   m = hashlib.sha1()
   for x in parts:
@@ -376,12 +396,15 @@ class LinenRun:
     x = P.make_input(k['batch'], 1)
     seeds = {s: jax.random.key(100 + v) for s, v in provided.items()}
     out = {}
+    self.values = []
     for phase in ('init', 'apply'):
       P.CTL.reset(record=True)
       if phase == 'init':
-        variables = m.init(dict(seeds), x)
+        y, variables = m.init_with_output(dict(seeds), x)
+        self.values.append(('init', _val((y, variables))))
       else:
-        m.apply(variables, x, rngs=dict(seeds), mutable=True)
+        r = m.apply(variables, x, rngs=dict(seeds), mutable=True)
+        self.values.append(('apply', _val(r)))
       counts = {}
       seen_models = {}
       for path, strm, b in P.CTL.keys:
@@ -420,10 +443,26 @@ class LinenRun:
   def run(self):
     k = self.plan['knobs']
     self.res.probe('separator_on' if k['separator'] else 'separator_off')
+    if k.get('jit_child'):
+      self.res.probe('linen_jit_child')
+      cache = {}
+
+      def hook(mod, ins):
+        if 'jit' not in cache:
+          cache['jit'] = nn.jit(P.CProg)
+        return cache['jit'](spec=P.dumps(ins['mod']))
+
+      P.CHILD_HOOK[0] = hook
     base = self.collect(-1, k['spec'], k['provided'], 'base program')
+    v1 = self.values
     again = self.collect(-1, k['spec'], k['provided'], 'base program (again)')
     if base != again:
       raise Violation('keys-not-deterministic', 'the same program with the same seeds produced different keys')
+    if self.values != v1:
+      raise Violation('keys-not-deterministic', 'the same program with the same seeds produced different values on its second run in this process (RNG-derived values are the proxy for keys drawn inside nn.jit)')
+    third = self.collect(-1, k['spec'], k['provided'], 'base program (third run)')
+    if third != base or self.values != v1:
+      raise Violation('keys-not-deterministic', 'the same program with the same seeds produced different keys / values on its third run in this process')
     self.log.add('base', len(base))
     for oi, e in enumerate(self.plan['ops']):
       sp2, prov2 = apply_edit(k['spec'], e, k['provided'])
@@ -477,6 +516,7 @@ def execute(plan):
   finally:
     flax.config.update('flax_fix_rng_separator', old)
     P.CTL.reset()
+    P.CHILD_HOOK[0] = None
   res.steps = compared
   res.ops = len(plan['ops'])
   res.digest = log.digest()
